@@ -112,9 +112,12 @@ def check_state(rec, B, tg, tp, r, subsets, rng, dense=True, extras=True):
         # other forms of the same subsystem: tuple, ndarray of indices, permuted indices, boolean mask
         forms = [("tuple", tuple(A)), ("ndarray", np.array(A)), ("perm", [A[i] for i in rng.permutation(len(A))]), ("mask", _mask_arg(B, A, N))]
         for nm, arg in forms:
+            before_arg = np.array(B.np(arg) if nm in ("mask", "ndarray") else arg).copy()
             ok, y = rec.attempt("ent.mask_vs_index", dict(case, form=nm), lambda: S.entropy(arg))
             if ok:
                 rec.check("ent.mask_vs_index", abs(_val(B, y) - v) < 1e-6, dict(case, form=nm), nt, expected=v, observed=_val(B, y), tags=tags)
+                after_arg = np.array(B.np(arg) if nm in ("mask", "ndarray") else arg)
+                rec.check("ent.arg_unchanged", np.array_equal(before_arg, after_arg), dict(case, form=nm), nt, expected=before_arg, observed=after_arg)
         if r == 0:
             comp = [q for q in range(N) if q not in A]
             if comp:
